@@ -10,7 +10,13 @@ Explicit-state BFS (mc.core.Explorer) over (live system snapshot, environment + 
 mc.refmodels.proto_uart).  Environment automata: a producer that may offer any alphabet byte at any
 cycle and holds it until accepted, a consumer that drives the deserializer's `ready` freely subject to a
 stall budget once a byte is pending, an independent software 8N1 receiver on `tx`.  Scoreboard: FIFO
-of accepted bytes compared at every delivery and at every byte recovered from the line."""
+of accepted bytes compared at every delivery and at every byte recovered from the line.
+
+Observed on the unchanged tree (left firing, thorough tier only): with a stall budget of 5.5 bit periods or more a byte
+is lost and its successor delivered twice (sig C17:n=<n>:lost).  UARTDeserializer raises valid only after it has seen
+ready = 1 and completes the transfer on a second ready = 1 cycle, so it needs two ready cycles per byte; when the consumer
+offers only one between two frame ends (11 bit periods back-to-back) the next frame end overwrites v/state_v.  Budgets of
+up to 5 bit periods close without violation."""
 import types
 
 import py4hw
@@ -145,6 +151,11 @@ def make_build(d):
     def build():
         c = build_system(n)
         c.ms = ref.mon_init()
+        # path bookkeeping, carried with each state but NOT part of the dedup key (it describes the BFS-tree path by which the
+        # state was first reached, i.e. exactly the trace reported for a violation): (cycle, ready edges so far, ready of
+        # the previous cycle, deliveries so far, ((frame-end cycle, ready edges before it), ...)); only used to group
+        # violating transitions into classes so that each class gets its own replayed, classified representative
+        c.aux = (0, 0, 0, 0, ())
         c.viol = None
         c.ev = ()
         c.obs = None
@@ -180,6 +191,14 @@ def step(c, x):
         w.put(v)
     prev = c.ms
     c.ms, c.viol, c.ev = ref.mon_step(prev, obs, x, c.n, live_bound(c.n))
+    cyc, rc, last_ready, ndel, fes = c.aux
+    c.ndel_before = ndel
+    if c.desync.get():           # the deserializer completed a frame at the edge of the previous cycle
+        fes += ((cyc - 1, rc - last_ready),)
+    for kind, b in c.ev:
+        if kind == 'deliver':
+            ndel += 1
+    c.aux = (cyc + 1, rc + x[2], x[2], ndel, fes)
     c.obs = obs
     st = c.stats
     for kind, b in c.ev:
@@ -216,15 +235,31 @@ def make_key_fn(d):
                 idx['state_v'] = [i for i, (l, k) in enumerate(st.slots) if l is des and k == 'state_v'][0]
                 if c.d_v.sinks:
                     raise core.HarnessError('deserializer v has a reader inside the system; merging is not justified')
-            if wv[idx['valid']] == 0 and av[idx['state_v']] == 0 and len(ex[1]) <= len(ex[2]):
+            if wv[idx['valid']] == 0 and av[idx['state_v']] == 0 and len(ex[0][1]) <= len(ex[0][2]):
                 wv = list(wv)
                 wv[idx['v']] = 0
         try:
             kw = bytes([wv[i] for i in st.key_idx])
         except (ValueError, TypeError):
             kw = tuple(wv[i] for i in st.key_idx)
-        return (kw, av, ex)
+        return (kw, av, ex[0])      # ex[1] is path bookkeeping, deliberately not in the key
     return key_fn
+
+
+KNOWN_SUFFIX = 'fewer_than_2_ready_edges_between_frame_ends'
+
+
+def window_of(fes, j):
+    """fes = ((frame-end cycle, ready edges strictly before it), ...) in order; j = index of the byte in question.
+    Returns ((first cycle, cycle of the next frame end), ready edges in [first, next)) or (None, 99) if byte j's frame or
+    the following frame has not been completed by the deserializer."""
+    if j + 1 < len(fes):
+        return (fes[j][0], fes[j + 1][0]), fes[j + 1][1] - fes[j][1]
+    return None, 99
+
+
+def _set_extra(c, e):
+    c.ms, c.aux = e
 
 
 def explore(d, stop_on_first=False):
@@ -233,13 +268,13 @@ def explore(d, stop_on_first=False):
     def check(c, x):
         if c.viol is not None:
             base, detail = c.viol
-            return {'base': base, 'detail': detail, 'inputs(valid,v,ready)': list(x),
+            return {'base': base, 'few_ready': window_of(c.aux[4], c.ndel_before)[1] < 2, 'detail': detail, 'inputs(valid,v,ready)': list(x),
                     'wires_into_edge(s_ready,d_valid,d_v,tx)': list(c.obs)}
         outcomes.add((c.obs, c.ev))
         return None
 
     ex = core.Explorer(make_build(d), make_inputs(d), check, step=step,
-                       extra_state=lambda c: c.ms, set_extra=lambda c, e: setattr(c, 'ms', e),
+                       extra_state=lambda c: (c.ms, c.aux), set_extra=_set_extra,
                        max_states=d.get('max_states', 400000), validate_every=d.get('validate_every', 997),
                        key_fn=make_key_fn(d))
     ex.run(stop_on_first=stop_on_first)
@@ -251,21 +286,27 @@ def run_trace(d, trace, keep=40):
     """Plain loop on a fresh system, monitor with full history.  Returns (clause or None, detail, log).
     When the first failing comparison is 'a later outstanding byte was delivered instead of the head', the run is
     continued with the default environment (producer idle, ready = 1) for three frame times to see whether the
-    skipped head still arrives (reordered) or never does (lost)."""
+    skipped head still arrives (reordered) or never does (lost).
+    A loss gets the suffix KNOWN_SUFFIX iff, counted on this replayed trace, the consumer's ready was 1 going into fewer
+    than 2 clock edges in the window [cycle at whose edge the deserializer completed the lost byte's frame, cycle at whose
+    edge it completed the next frame) -- frame completions are read off the deserializer's clock_desync output, which is
+    1 in the cycle after a completion."""
     with core.quiet():
         c = make_build(d)()
     delivered, accepted, recovered = [], [], []
     log = []
+    desync_log = []
     clause, detail = None, None
     for i, x in enumerate(trace):
         x = tuple(x)
+        desync_log.append(c.desync.get())
         with core.quiet():
             step(c, x)
         log.append({'cycle': i, 'valid,v,ready': list(x), 's_ready,d_valid,d_v,tx': list(c.obs), 'events': [list(e) for e in c.ev]})
         if c.viol is not None:
             base, detail = c.viol
             clause = ref.classify(base, detail, delivered)
-            detail = dict(detail, cycle=i, accepted=list(accepted), delivered=list(delivered), recovered_from_line=list(recovered))
+            detail = dict(detail, cycle=i, accepted_before=list(accepted), delivered_before=list(delivered), recovered_from_line_before=list(recovered))
             if clause == 'reordered':
                 head = detail['outstanding'][0]
                 hold = c.ms[0]
@@ -281,6 +322,18 @@ def run_trace(d, trace, keep=40):
                 detail['delivered_afterwards(ready=1,3 frames)'] = later
                 if head not in later:
                     clause = 'lost'
+            if clause == 'lost':
+                frame_ends = [k - 1 for k, ds in enumerate(desync_log) if ds]
+                j = len(delivered)          # index (in acceptance order) of the byte that was not delivered
+                detail['deserializer_frame_end_cycles'] = frame_ends
+                if j + 1 < len(frame_ends):
+                    lo, hi = frame_ends[j], frame_ends[j + 1]
+                    ready_cycles = [k for k in range(lo, hi) if trace[k][2]]
+                    detail['window_cycles[first,next_frame_end)'] = [lo, hi]
+                    detail['ready_cycles_in_window'] = ready_cycles
+                    detail['ready_edges_in_window'] = len(ready_cycles)
+                    if len(ready_cycles) < 2:
+                        clause = 'lost:' + KNOWN_SUFFIX
             break
         for kind, b in c.ev:
             {'accept': accepted, 'deliver': delivered, 'line': recovered}[kind].append(b)
@@ -303,11 +356,14 @@ def run_shard(d):
     if ex.width_violations:
         raise core.HarnessError('wire value outside its width in the UART loop: %r' % (ex.width_violations[0][1],))
     # BFS order => the first violation of each base clause is a shortest one; classify that one on a fresh system
+    # violating transitions are grouped by (base clause, 'fewer than 2 ready edges in the frame-end window' computed from the
+    # path bookkeeping) so that a different failure is not hidden behind an earlier one of the same base clause
     seen_base, seen_sig = set(), set()
     for kind, trace, detail in ex.violations:
-        if detail['base'] in seen_base:
+        grp = (detail['base'], detail.get('few_ready'))
+        if grp in seen_base:
             continue
-        seen_base.add(detail['base'])
+        seen_base.add(grp)
         trace = [list(x) for x in trace]
         clause, det2, log = run_trace(d, trace)
         if clause is None:
